@@ -1,11 +1,13 @@
 package rules
 
 import (
-	"go/ast"
 	"fmt"
+	"go/ast"
 	"go/constant"
 	"go/token"
 	"go/types"
+	"math"
+	"math/big"
 	"sort"
 	"strings"
 
@@ -771,7 +773,7 @@ func smallIdentities(c *core.Ctx, b *ob) {
 // S12 — proto: the implicit number of an untagged field counts the exported fields that precede
 // it; it is not the reflect field index (which also counts unexported fields).
 func smallImplicitNumber(c *core.Ctx, b *ob) {
-	props := []string{"C12", "C03"}
+	props := []string{"C12", "C03", "C07"}
 	key := "implicit-field-number"
 	fn := c.Lookup("proto.structCodecOf")
 	if fn == nil {
@@ -4018,7 +4020,7 @@ func smallWave17(c *core.Ctx, b *ob) {
 	// fewer bytes than asked for (a bufio boundary, a socket), and code that calls Read itself has
 	// to account for the bytes already delivered.
 	{
-		props := []string{"C04", "C08"}
+		props := []string{"C04", "C08", "C13"}
 		key := "thrift:no-bare-read"
 		bad, n := "", 0
 		for _, fn := range c.RepoFunctions() {
@@ -6406,54 +6408,60 @@ func smallWave23(c *core.Ctx, b *ob) {
 			}
 		}
 	}
-	// (f) Unescape hands out memory of its own: the scanners (parseString*, parseStringUnquote)
-	// return windows of the input when the text has no escape sequence, and a window returned to the
-	// caller has the rest of the input as spare capacity — appending to the result rewrites the input
-	{
+	// (f) Unescape and RawValue.Unquote/AppendUnquote hand out memory of their own: the scanners
+	// (parseString*, parseStringUnquote) return windows of the input when the text has no escape
+	// sequence, and a window returned to the caller has the rest of the input as spare capacity —
+	// appending to the result rewrites the input
+	for _, spec := range []struct{ fn, key string }{
+		{"json.Unescape", "unescape:result-is-a-copy"},
+		{"json.(RawValue).AppendUnquote", "unquote:result-is-a-copy"},
+		{"json.(RawValue).Unquote", "unquote:result-is-a-copy:Unquote"},
+	} {
 		props := []string{"C10"}
-		key := "unescape:result-is-a-copy"
-		fn := c.Lookup("json.Unescape")
-		if fn == nil {
-			b.addP(props, core.Undecided, key, "-", "json.Unescape not found")
-		} else {
-			bad := ""
-			var windowOf func(v ssa.Value, depth int) string
-			windowOf = func(v ssa.Value, depth int) string {
-				if depth > 4 {
-					return ""
-				}
-				for _, o := range origins(v) {
-					switch x := o.(type) {
-					case *ssa.Parameter:
-						if isSliceType(x.Type()) {
-							return "the parameter " + x.Name()
-						}
-					case *ssa.Slice:
-						if w := windowOf(x.X, depth+1); w != "" {
-							return "a window of " + w
-						}
-					case *ssa.Extract:
-						if call, isC := x.Tuple.(*ssa.Call); isC {
-							if f := staticCallee(call.Common()); f != nil && strings.HasPrefix(f.Name(), "parse") && isSliceType(x.Type()) {
-								return "a result of " + f.Name()
-							}
-						}
-					}
-				}
+		key := spec.key
+		fn := c.Lookup(spec.fn)
+		if fn == nil || len(fn.Params) == 0 {
+			b.addP(props, core.Undecided, key, "-", spec.fn+" not found")
+			continue
+		}
+		input := fn.Params[0] // the text: Unescape's argument, the RawValue receiver
+		bad := ""
+		var windowOf func(v ssa.Value, depth int) string
+		windowOf = func(v ssa.Value, depth int) string {
+			if depth > 4 {
 				return ""
 			}
-			for _, r := range returnsOf(fn) {
-				for _, res := range r.Results {
-					if w := windowOf(res, 0); w != "" {
-						bad = c.InstrPos(r) + ": " + w
+			for _, o := range origins(v) {
+				switch x := o.(type) {
+				case *ssa.Parameter:
+					if x == input {
+						return "its input " + x.Name()
+					}
+				case *ssa.Slice:
+					if w := windowOf(x.X, depth+1); w != "" {
+						return "a window of " + w
+					}
+				case *ssa.Extract:
+					if call, isC := x.Tuple.(*ssa.Call); isC {
+						if f := staticCallee(call.Common()); f != nil && strings.HasPrefix(f.Name(), "parse") && isSliceType(x.Type()) {
+							return "a result of " + f.Name()
+						}
 					}
 				}
 			}
-			if bad != "" {
-				b.addP(props, core.Violation, key, bad, "json.Unescape returns "+bad+": for a string without escape sequences the scanners return the bytes of the input between the quotes, so the result shares memory with the argument (and has the rest of it as capacity) without any zero-copy flag having been given")
-			} else {
-				b.addP(props, core.Discharged, key, c.FuncPos(fn), "no return value of Unescape is its argument, a window of it or a scanner's result")
+			return ""
+		}
+		for _, r := range returnsOf(fn) {
+			for _, res := range r.Results {
+				if w := windowOf(res, 0); w != "" {
+					bad = c.InstrPos(r) + ": " + w
+				}
 			}
+		}
+		if bad != "" {
+			b.addP(props, core.Violation, key, bad, spec.fn+" returns "+bad+": for a string without escape sequences the scanners return the bytes of the input between the quotes, so the result shares memory with the text it was given (and has the rest of it as capacity) without any zero-copy flag having been given")
+		} else {
+			b.addP(props, core.Discharged, key, c.FuncPos(fn), "no return value is the input, a window of it or a scanner's result")
 		}
 	}
 	// (g) the path recorded in an UnmarshalTypeError is made of strings of its own: the error is a
@@ -7049,6 +7057,157 @@ func smallWave25(c *core.Ctx, b *ob) {
 			b.addP(props, core.Violation, key, bad, "the bytes returned by MarshalText are appended to the output as they are at "+bad+": whatever test selects that path, a text containing a quote (printable ASCII, no backslash) produces invalid JSON, and only under the flag settings that take the shortcut")
 		default:
 			b.addP(props, core.Discharged, key, "-", fmt.Sprintf("%d encoder method(s) call MarshalText; the text is never the spread argument of append", n))
+		}
+	}
+	// (g) thrift decides in three places whether a Go map is a thrift set (the type reported in
+	// field and list headers, the encoder, the decoder): all three use the same test — the map's
+	// element type has size zero. A header that says MAP in front of a body written as a set (or the
+	// reverse) is not the specification's encoding and cannot be skipped by a reader that does not
+	// know the field.
+	{
+		props := []string{"C13", "C04"}
+		key := "thrift-set-detection:siblings-agree"
+		var have, lack []string
+		for _, name := range []string{"thrift.TypeOf", "thrift.encodeFuncMapOf", "thrift.decodeFuncMapOf"} {
+			fn := c.Lookup(name)
+			if fn == nil {
+				lack = append(lack, name+" (not found)")
+				continue
+			}
+			found := false
+			for _, blk := range fn.Blocks {
+				for _, in := range blk.Instrs {
+					bo, ok := in.(*ssa.BinOp)
+					if !ok || (bo.Op != token.EQL && bo.Op != token.NEQ) {
+						continue
+					}
+					if k, isK := constInt(bo.Y); !isK || k != 0 {
+						continue
+					}
+					if call, isC := bo.X.(*ssa.Call); isC && call.Common().IsInvoke() && call.Common().Method.Name() == "Size" {
+						found = true
+					}
+				}
+			}
+			if found {
+				have = append(have, name)
+			} else {
+				lack = append(lack, name)
+			}
+		}
+		switch {
+		case len(have) == 0:
+			b.addP(props, core.Undecided, key, "-", "no thrift function tests the size of a map's element type")
+		case len(lack) > 0:
+			b.addP(props, core.Violation, key, strings.Join(lack, ", "), fmt.Sprintf("%v decide that a map is a set by testing that its element type has size zero, %v does not: for a map whose element is a named empty struct (or a zero-length array) the type announced in field, list and map headers and the body that follows disagree — a set body behind a MAP header", have, lack))
+		default:
+			b.addP(props, core.Discharged, key, "-", fmt.Sprintf("%v all test Elem().Size() == 0", have))
+		}
+	}
+	// (h) skipValues consumes a map entry by entry: the loop over the entry's types is inside the
+	// loop over the count. Interchanged, it reads all keys and then all values, which is the same
+	// byte sequence only when keys and values have the same fixed width.
+	{
+		props := []string{"C13", "C08", "C04"}
+		key := "skip-values:entry-by-entry"
+		fn := c.Lookup("thrift.skipValues")
+		if fn == nil {
+			b.addP(props, core.Undecided, key, "-", "thrift.skipValues not found")
+		} else {
+			var np ssa.Value
+			for _, p := range fn.Params {
+				if bt, ok := p.Type().Underlying().(*types.Basic); ok && bt.Info()&types.IsInteger != 0 {
+					np = p
+				}
+			}
+			var skipBlk *ssa.BasicBlock
+			for _, ci := range callsIn(fn) {
+				if g := staticCallee(ci.Common()); g != nil && g.Name() == "skip" {
+					skipBlk = ci.Block()
+				}
+			}
+			countLoop, typeLoop := -1, -1
+			if skipBlk != nil && np != nil {
+				for _, h := range loopHeaders(fn) {
+					body := loopBlocks(h)
+					if !body[skipBlk] || len(h.Instrs) == 0 {
+						continue
+					}
+					ifi, ok := h.Instrs[len(h.Instrs)-1].(*ssa.If)
+					if !ok {
+						continue
+					}
+					bo, ok := ifi.Cond.(*ssa.BinOp)
+					if !ok {
+						continue
+					}
+					if stripConv(bo.Y) == np || stripConv(bo.X) == np {
+						countLoop = len(body)
+					} else {
+						typeLoop = len(body)
+					}
+				}
+			}
+			switch {
+			case skipBlk == nil || countLoop < 0 || typeLoop < 0:
+				b.addP(props, core.Undecided, key, c.FuncPos(fn), "skipValues is not a loop over the count around a loop over the types")
+			case typeLoop > countLoop:
+				b.addP(props, core.Violation, key, c.FuncPos(fn), "skipValues runs the loop over the count inside the loop over the types: a map is skipped as all its keys followed by all its values, which is not how entries are laid out (key, value, key, value) — with keys and values of different widths (strings, varints) the reader loses its place in the stream")
+			default:
+				b.addP(props, core.Discharged, key, c.FuncPos(fn), "the loop over the types is nested in the loop over the count")
+			}
+		}
+	}
+	// (i) a uvarint read from the wire is range-checked as the unsigned number it is: converted to a
+	// signed type first, a value of 2^63 or more is negative and passes any upper bound
+	{
+		props := []string{"C08", "C07"}
+		key := "uvarint:range-checked-unsigned"
+		n, bad := 0, ""
+		for _, fn := range c.RepoFunctions() {
+			name := shortName(fn)
+			if fn.Blocks == nil || !(strings.HasPrefix(name, "thrift.") || strings.HasPrefix(name, "proto.")) {
+				continue
+			}
+			for _, ci := range callsIn(fn) {
+				g := staticCallee(ci.Common())
+				if g == nil || g.Pkg == nil || g.Pkg.Pkg.Path() != "encoding/binary" || !(g.Name() == "ReadUvarint" || g.Name() == "Uvarint") {
+					continue
+				}
+				call, isCall := ci.(*ssa.Call)
+				if !isCall {
+					continue
+				}
+				n++
+				for _, blk := range fn.Blocks {
+					for _, in := range blk.Instrs {
+						cv, ok := in.(*ssa.Convert)
+						if !ok {
+							continue
+						}
+						ex, ok := cv.X.(*ssa.Extract)
+						if !ok || ex.Tuple != ssa.Value(call) || ex.Index != 0 {
+							continue
+						}
+						bt, ok := cv.Type().Underlying().(*types.Basic)
+						if !ok || bt.Info()&types.IsUnsigned != 0 || bt.Info()&types.IsInteger == 0 {
+							continue
+						}
+						_, hi := rangeFacts(ex, blk)
+						if hi == nil || hi.Cmp(big.NewInt(math.MaxInt64)) > 0 {
+							bad = c.InstrPos(cv) + " (" + name + ")"
+						}
+					}
+				}
+			}
+		}
+		switch {
+		case n == 0:
+			b.addP(props, core.Info, key, "-", "no call of binary.ReadUvarint / Uvarint in thrift or proto")
+		case bad != "":
+			b.addP(props, core.Violation, key, bad, "the uvarint read from the wire is converted to a signed integer at "+bad+" before any unsigned upper bound is established: a ten-byte varint of 2^63 or more becomes negative, passes the range check, and is used as a length (makeslice: len out of range — a panic) or skipped as an empty value")
+		default:
+			b.addP(props, core.Discharged, key, "-", fmt.Sprintf("%d read(s) of a uvarint: none converted to a signed type before an unsigned bound", n))
 		}
 	}
 	// (a) proto's entry points describe the value to the codec with the same constant flags: Size,
